@@ -1,29 +1,50 @@
 import GoomVerif.Drv.Util
-import GoomVerif.Model.Method
+import GoomVerif.Model.MethodH
 /-! Driver for C06.
 
     `c06.hist <step>.. | <entry>.. | <sym>..`
-      step  := `SM~pkg~T~ptr~m~eid` | `SX~pkg~T~ptr~m~eid` | `ES~pkg~raw~m~eid` | `EC~pkg~raw~m~eid` | `R`   (ptr is 0/1;
-               `eid` tells the Go probe which generated closure supplies the static Go types and is ignored here;
-               `EC` = `ES` without the `Pkg(..)` call: the probe checks that the builder's current package is `pkg`)
-      entry := `pkg~T~ptr~m~shape~np`   (shape `-` for an ordinary type); entry id = position
-      sym   := a function name of the probe binary (table order)
-    answer: `r=<ok|err:cls|nf:name>,.. hit=<id:k:r+:a+|a->,.. after=clean|dirty` -/
+      lookup := `SM~pkg~T~ptr~m~eid[~tmpl]` | `SX~pkg~T~ptr~m~eid[~tmpl]` | `ES~pkg~raw~m~eid` | `EC~pkg~raw~m~eid`
+                (ptr is 0/1; `eid` tells the Go probe which generated closure supplies the static Go types, `tmpl` which
+                 template instance is handed to `Struct(..)` (zero value / typed nil pointer / new / filled) — both are
+                 ignored here: goom only looks at the template's type; `EC` = `ES` without the `Pkg(..)` call)
+      step   := lookup                 lookup + Apply(cb k), handle not kept
+              | `L~h~`lookup           h := lookup
+              | `A~h` | `T~h~v` | `S~h~v1~v2` | `W~h~f~v` | `SW~h~v1~v2~f~v` | `C~h` | `R`
+                (Apply(cb k) / Return(v) / Returns(v1,v2) / When(args).Return(v) / Returns(..).When(args).Return(v) /
+                 Cancel / builder Reset; f = 1: args are the standard call arguments, 0: other arguments)
+      entry  := `pkg~T~ptr~m~shape~np`   (shape `-` for an ordinary type); entry id = position
+      sym    := a function name of the probe binary (table order)
+    answer: `r=<ok|err:cls|nf:name>,.. hit=<id:k:r+:a+|a-  or  id:t/t/t with t = o|k<k>|s<v>|p>,.. after=clean|dirty` -/
 namespace Drv.C06
-open Method
+open Method (Str Entry Res Ty)
+open MethodH
 
 def splitTilde (s : String) : List String := s.splitOn "~"
 
-def parseStep (t : String) : Option Step :=
-  match splitTilde t with
-  | ["SM", pkg, ty, p, m, eid] =>
-    if (p = "0" ∨ p = "1") ∧ eid.toNat?.isSome then some (.structMethod ⟨pkg.toList, ty.toList, p = "1"⟩ m.toList) else none
-  | ["SX", pkg, ty, p, m, eid] =>
-    if (p = "0" ∨ p = "1") ∧ eid.toNat?.isSome then some (.structExport ⟨pkg.toList, ty.toList, p = "1"⟩ m.toList) else none
+def parseLook : List String → Option Look
+  | "SM" :: pkg :: ty :: p :: m :: eid :: rest =>
+    if (p = "0" ∨ p = "1") ∧ eid.toNat?.isSome ∧ rest.length ≤ 1 then some (.structMethod ⟨pkg.toList, ty.toList, p = "1"⟩ m.toList) else none
+  | "SX" :: pkg :: ty :: p :: m :: eid :: rest =>
+    if (p = "0" ∨ p = "1") ∧ eid.toNat?.isSome ∧ rest.length ≤ 1 then some (.structExport ⟨pkg.toList, ty.toList, p = "1"⟩ m.toList) else none
   | ["ES", pkg, raw, m, eid] => if eid.toNat?.isSome then some (.exportStruct pkg.toList raw.toList m.toList) else none
   | ["EC", pkg, raw, m, eid] => if eid.toNat?.isSome then some (.exportStruct pkg.toList raw.toList m.toList) else none
-  | ["R"] => some .reset
   | _ => none
+
+def parseFlag (s : String) : Option Bool := if s = "1" then some true else if s = "0" then some false else none
+
+def parseStep (t : String) : Option MethodH.Step :=
+  match splitTilde t with
+  | ["R"] => some .reset
+  | "L" :: h :: rest => do let h ← h.toNat?; let l ← parseLook rest; pure (.look h l)
+  | ["A", h] => do let h ← h.toNat?; pure (.apply h)
+  | ["C", h] => do let h ← h.toNat?; pure (.cancel h)
+  | ["T", h, v] => do let h ← h.toNat?; let v ← v.toInt?; pure (.ret h v)
+  | ["S", h, v1, v2] => do let h ← h.toNat?; let v1 ← v1.toInt?; let v2 ← v2.toInt?; pure (.rets h v1 v2)
+  | ["W", h, f, v] => do let h ← h.toNat?; let f ← parseFlag f; let v ← v.toInt?; pure (.whenRet h f v)
+  | ["SW", h, v1, v2, f, v] => do
+    let h ← h.toNat?; let v1 ← v1.toInt?; let v2 ← v2.toInt?; let f ← parseFlag f; let v ← v.toInt?
+    pure (.retsWhen h v1 v2 f v)
+  | toks => (parseLook toks).map .shot
 
 def parseEntry (t : String) : Option Entry :=
   match splitTilde t with
@@ -45,9 +66,27 @@ def showRes : Res → String
   | .err c => "err:" ++ String.ofList c
   | .notfound n => "nf:" ++ String.ofList n
 
-def enumFrom {α : Type} : Nat → List α → List (Nat × α)
-  | _, [] => []
-  | n, a :: as => (n, a) :: enumFrom (n + 1) as
+def showCall : CallObs → String
+  | .orig => "o"
+  | .cb k => s!"k{k}"
+  | .val v => s!"s{v}"
+  | .panic => "p"
+
+/-- call every entry three times (the probe's three instances), in entry order, threading the result cursors -/
+def snapshot (syms : List Str) : HState → Nat → List Entry → List String → HState × List String
+  | s, _, [], acc => (s, acc.reverse)
+  | s, i, e :: rest, acc =>
+    let r0 := call syms s e
+    let r1 := call syms r0.1 e
+    let r2 := call syms r1.1 e
+    let tok :=
+      match r0.2, r1.2, r2.2 with
+      | .orig, .orig, .orig => none
+      | .cb k0, .cb k1, .cb k2 =>
+        if k0 = k1 ∧ k1 = k2 then some s!"{i}:{k0}:r+:{if e.shape.isEmpty || e.np == 0 then "a+" else "a-"}"
+        else some s!"{i}:k{k0}/k{k1}/k{k2}"
+      | a, b, c => some s!"{i}:{showCall a}/{showCall b}/{showCall c}"
+    snapshot syms r2.1 (i + 1) rest (match tok with | some t => t :: acc | none => acc)
 
 def handle (toks : List String) : Option String :=
   match toks with
@@ -59,14 +98,11 @@ def handle (toks : List String) : Option String :=
       match stoks.mapM parseStep, etoks.mapM parseEntry with
       | some steps, some entries =>
         let syms : List Str := symtoks.map String.toList
-        let r := run syms entries BState.init 0 steps
-        let hits := (enumFrom 0 entries).filterMap (fun (i, e) =>
-          match behavOf syms r.1.patched e with
-          | some k => some s!"{i}:{k}:r+:{if e.shape.isEmpty || e.np == 0 then "a+" else "a-"}"
-          | none => none)
-        let after := (run syms entries r.1 steps.length [Step.reset]).1
+        let r := run syms entries HState.init 0 steps
+        let snap := snapshot syms r.1 0 entries []
+        let after := (step syms entries snap.1 steps.length Step.reset).1
         let clean := entries.all (fun e => (behavOf syms after.patched e).isNone)
-        some s!"r={String.intercalate "," (r.2.map showRes)} hit={String.intercalate "," hits} after={if clean then "clean" else "dirty"}"
+        some s!"r={String.intercalate "," (r.2.map showRes)} hit={String.intercalate "," snap.2} after={if clean then "clean" else "dirty"}"
       | _, _ => some "bad-op"
     | _ => some "bad-op"
   | _ => none
